@@ -18,7 +18,8 @@ Import ListNotations.
 From Mv Require Import Model.Entry Model.Reconcile Model.Safety Model.Controller Model.ControllerCheck
      Proof.ControllerBase Proof.ControllerPause Proof.ControllerTerminate Proof.ControllerFlush
      Proof.ControllerReset Proof.ControllerSaved Proof.ControllerSound
-     Proof.ControllerFlushTx Proof.ControllerFlushTxSound Proof.Controller.
+     Proof.ControllerFlushTx Proof.ControllerFlushTxSound Proof.Controller
+     Model.TerminateFiles Proof.TerminateFiles.
 Local Open Scope list_scope.
 
 (* ---------------------------------------------------------------- pause *)
@@ -145,6 +146,25 @@ Theorem c29_terminate_sound_later_commands_fail : forall strict pre t mid t' c p
   c <> CShutdown -> forall c', ~ In (Rt t' c' true) post.
 Proof. exact terminate_sound_late. Qed.
 
+(* c29_terminate_removal_faults. The machine above assumes that the data
+   directory is writable (both removals of halt(terminate) succeed). Under
+   file-system faults at the archive path (missing, or a directory that cannot
+   be unlinked) and a missing session file, the removal step still removes the
+   session record - both removals are attempted whatever the other does - so
+   no new manager loads the session; Terminate returns nil exactly when both
+   removals succeeded. Tied to the real Manager by goharness/cmd/controller
+   -prop C29T (Harness/TerminateH.v). *)
+Theorem c29_terminate_removal_faults : forall a sess, check_term (term_model a sess) = true.
+Proof. exact term_model_removes. Qed.
+
+Theorem c29_terminate_removal_check_sound : forall o,
+  check_term o = true -> to_session o = false /\ to_loaded o = false.
+Proof. exact check_term_sound. Qed.
+
+Theorem c29_terminate_removal_nil : forall a sess,
+  to_nil (term_model a sess) = true <-> sess = true /\ a = ArchFile.
+Proof. exact term_model_nil. Qed.
+
 (* ---------------------------------------------------------------- reset *)
 
 (* c29_reset_safe. (a) In every reachable state, the step on which a Reset
@@ -199,6 +219,9 @@ Print Assumptions c29_flush_saved_before_answer.
 Print Assumptions c29_flush_completed_cycle.
 Print Assumptions c29_flush_completed_cycle_sound.
 Print Assumptions c29_flush_scans_served.
+Print Assumptions c29_terminate_removal_faults.
+Print Assumptions c29_terminate_removal_check_sound.
+Print Assumptions c29_terminate_removal_nil.
 Print Assumptions c29_terminate.
 Print Assumptions c29_terminate_refuted_unfixed.
 Print Assumptions c29_terminate_sound.
